@@ -965,9 +965,13 @@ def compile_main(raw_args: Optional[Sequence[str]] = None) -> None:
 
     constraint_reqs = []
     if args.constraints is not None:
-        constraint_reqs = [
-            _create_input_reqs(input_arg, []) for input_arg in args.constraints
-        ]
+        try:
+            constraint_reqs = [
+                _create_input_reqs(input_arg, []) for input_arg in args.constraints
+            ]
+        except ValueError as ex:
+            print(f"ERROR: {ex}", file=sys.stderr)
+            sys.exit(1)
 
     if args.extras:
         for req in input_reqs:
